@@ -300,6 +300,9 @@ ob("font_widths_get", ["C19"], "font.rs", unwind=6, timeout=600, functions=["fon
 ob("font_widths_commute", ["C19"], "font.rs", unwind=16, timeout=1200, mem_gb=12, functions=WFN,
    bound="5 concrete (first_char, len, code a, code b) shapes; both insertion orders give the same table")
 
+ob("font_widths_range_shapes", ["C19"], "font.rs", unwind=16, timeout=1200, mem_gb=12, functions=WFN + ["font::Widths::set"],
+   bound="6 concrete (first_char, len, first, last) shapes; one range-form /W group applied as Font::widths does (set per code); "
+         "entries/default/width over all u16 values; every queried code 0..=14")
 ob("func_sampled_2d_total", ["C14"], "func.rs", unwind=8, cuts=X1_ERR, stubs=[FMT_STUB], timeout=1500, mem_gb=16,
    functions=["object::function::SampledFunction::apply", "object::function::SampledFunctionInput::map", "object::function::SampledFunctionOutput::map"],
    bound="2 inputs, 1 output, 4 sample bytes; every f32 /Domain, /Encode, /Decode, every u32 /Size, every f32 argument pair: no panic")
